@@ -44,6 +44,9 @@ pub struct RaceCase {
     /// threads call through one shared `&Unimock` (the original behind an Arc) instead of clones
     #[serde(default)]
     pub shared: bool,
+    /// thread 0 is the thread that constructed the mock, calling through the original itself
+    #[serde(default)]
+    pub creator: bool,
 }
 
 fn pat(id: u16, chain: Vec<Seg>) -> PatternSpec {
@@ -139,10 +142,13 @@ pub fn execute(case: &RaceCase, schedule: &[u8]) -> Result<Executed, String> {
     let cl = clauses(case);
     let original = new_mock(false, &cl).map_err(|e| format!("HARNESS: construct {e}"))?;
     let mut bodies: Vec<Box<dyn FnOnce() -> Vec<Result<u32, String>> + Send>> = vec![];
+    // with `creator`, thread 0 runs on this thread (the one that built the mock) through the original
+    let first_spawned = case.creator as usize;
+    let creator_plan: Vec<(u8, u8)> = (0..case.calls as usize).map(|k| call_of(case, 0, k)).collect();
     let shared_handle: Option<std::sync::Arc<Unimock>>;
-    let original = if case.shared {
+    let (original, run) = if case.shared {
         let arc = std::sync::Arc::new(original);
-        for t in 0..case.threads as usize {
+        for t in first_spawned..case.threads as usize {
             let handle = arc.clone();
             let plan: Vec<(u8, u8)> = (0..case.calls as usize).map(|k| call_of(case, t, k)).collect();
             bodies.push(Box::new(move || {
@@ -155,10 +161,26 @@ pub fn execute(case: &RaceCase, schedule: &[u8]) -> Result<Executed, String> {
                 out
             }));
         }
+        let run = {
+            let inline: Option<Box<dyn FnOnce() -> Vec<Result<u32, String>> + '_>> = if case.creator {
+                let handle: &Unimock = &arc;
+                Some(Box::new(move || {
+                    let mut out = vec![];
+                    for (m, a) in creator_plan {
+                        out.push(catch(|| traits::call_shared(handle, m, a)));
+                    }
+                    let _ = traits::take_log();
+                    out
+                }))
+            } else {
+                None
+            };
+            sched::run_with_inline(inline, bodies, schedule)
+        };
         shared_handle = Some(arc);
-        None
+        (None, run)
     } else {
-        for t in 0..case.threads as usize {
+        for t in first_spawned..case.threads as usize {
             let clone: Unimock = original.clone();
             let plan: Vec<(u8, u8)> = (0..case.calls as usize).map(|k| call_of(case, t, k)).collect();
             bodies.push(Box::new(move || {
@@ -172,10 +194,25 @@ pub fn execute(case: &RaceCase, schedule: &[u8]) -> Result<Executed, String> {
                 out
             }));
         }
+        let run = {
+            let inline: Option<Box<dyn FnOnce() -> Vec<Result<u32, String>> + '_>> = if case.creator {
+                let handle: &Unimock = &original;
+                Some(Box::new(move || {
+                    let mut out = vec![];
+                    for (m, a) in creator_plan {
+                        out.push(catch(|| traits::call_shared(handle, m, a)));
+                    }
+                    let _ = traits::take_log();
+                    out
+                }))
+            } else {
+                None
+            };
+            sched::run_with_inline(inline, bodies, schedule)
+        };
         shared_handle = None;
-        Some(original)
+        (Some(original), run)
     };
-    let run = sched::run(bodies, schedule);
     let original = match (original, shared_handle) {
         (Some(o), _) => o,
         (None, Some(arc)) => match std::sync::Arc::try_unwrap(arc) {
@@ -274,7 +311,8 @@ pub fn check(case: &RaceCase) -> Result<CaseInfo, String> {
             Kind::SingleUseThen => "single-use-then",
             Kind::AllErrors => "all-errors",
         })
-        .class_if(case.shared, "shared-&Unimock"))
+        .class_if(case.shared, "shared-&Unimock")
+        .class_if(case.creator, "creator-thread-takes-part"))
 }
 
 /// Exhaustive depth-first enumeration of all schedules of one configuration.
@@ -284,8 +322,11 @@ pub fn enumerate_config(name: &str, kinds: &[Kind], configs: &[(u8, u8)], limit:
     let mut per_config = vec![];
     'outer: for &kind in kinds {
         for &(threads, calls) in configs {
-            for (slots, shared) in slot_variants(kind, threads, calls).into_iter().flat_map(|s| [(s, false), (s, true)]) {
-                let base = RaceCase { kind, threads, calls, slots, schedule: vec![], shared };
+            for (slots, shared, creator) in slot_variants(kind, threads, calls)
+                .into_iter()
+                .flat_map(|s| [(s, false, false), (s, true, false), (s, false, true), (s, true, true)])
+            {
+                let base = RaceCase { kind, threads, calls, slots, schedule: vec![], shared, creator };
                 let mut execs = 0u64;
                 let mut with_switches = 0u64;
                 let mut max_points = 0usize;
@@ -301,11 +342,11 @@ pub fn enumerate_config(name: &str, kinds: &[Kind], configs: &[(u8, u8)], limit:
                 rep.evaluations += execs;
                 // every schedule of an exhaustive enumeration is distinct by construction
                 for i in 0..with_switches {
-                    rep.nontrivial.insert(vcore::stable_hash(&(kind, threads, calls, slots, shared, i)));
+                    rep.nontrivial.insert(vcore::stable_hash(&(kind, threads, calls, slots, shared, creator, i)));
                 }
                 match r {
                     Ok(Some(n)) => per_config.push(serde_json::json!({
-                        "kind": format!("{kind:?}"), "threads": threads, "calls": calls, "slots": slots, "shared_handle": shared,
+                        "kind": format!("{kind:?}"), "threads": threads, "calls": calls, "slots": slots, "shared_handle": shared, "creator_takes_part": creator,
                         "schedules": n, "complete": true, "yield_points": max_points })),
                     Ok(None) => {
                         rep.exhaustive = false;
@@ -353,7 +394,7 @@ pub fn stress(ctx: &Ctx) -> SubReport {
         let threads = 16u8;
         let calls = 40u8;
         for kind in [Kind::UnorderedChain, Kind::Ordered, Kind::SingleUseThen] {
-            let case = RaceCase { kind, threads, calls: if kind == Kind::Ordered { 12 } else { calls }, slots: 190, schedule: vec![round as u8], shared: round % 2 == 1 };
+            let case = RaceCase { kind, threads, calls: if kind == Kind::Ordered { 12 } else { calls }, slots: 190, schedule: vec![round as u8], shared: round % 2 == 1, creator: round % 4 >= 2 };
             match stress_once(&case) {
                 Ok(()) => {
                     let info = CaseInfo::new(true).class("stress");
@@ -427,7 +468,8 @@ fn case_strategy() -> impl Strategy<Value = RaceCase> {
             let v = slot_variants(kind, threads, calls);
             let slots = if fewer { *v.last().unwrap() } else { v[0] };
             let shared = schedule.first().map(|b| b % 2 == 1).unwrap_or(false);
-            RaceCase { kind, threads, calls, slots, schedule, shared }
+            let creator = schedule.first().map(|b| (b >> 1) % 2 == 1).unwrap_or(false);
+            RaceCase { kind, threads, calls, slots, schedule, shared, creator }
         })
 }
 
